@@ -372,6 +372,8 @@ func (ex *Exec) evalIdent(st *State, name string, e *env) Val {
 		return Val{K: KTerm, T: "out", Meta: ghostSeq{"out"}}
 	case "cb":
 		return Val{K: KTerm, T: "cb", Meta: ghostSeq{"cb"}}
+	case "pushlen":
+		return term(st.region("G!push#len", "Int"), tInt)
 	case "lastreader":
 		return Val{K: KTerm, T: st.region("G!rdlast", "Int")}
 	case "rdcount":
@@ -489,6 +491,18 @@ func (ex *Exec) evalSel(st *State, x Val, name string, n *node) Val {
 		return ex.outPath(st, os.idx, ex.auditEventT(), os.path+"."+name, nil)
 	}
 	switch x.K {
+	case KHeapPtr:
+		if x.Root != nil {
+			path, lt := pathOf(x.Root, x.Path)
+			if s, ok := lt.Underlying().(*types.Struct); ok {
+				for i := 0; i < s.NumFields(); i++ {
+					if s.Field(i).Name() == name {
+						return st.loadAt(x.Root, path+"."+name, s.Field(i).Type(), x.Base)
+					}
+				}
+			}
+		}
+		specFail("selector %s on interior pointer", name)
 	case KSlice:
 		switch name {
 		case "id":
@@ -647,6 +661,10 @@ func (ex *Exec) valEq(a, b Val) string {
 		return eq(b.Fs[0].T, "0")
 	case a.K == KTerm && b.K == KTerm:
 		return eq(a.T, b.T)
+	case a.K == KHeapPtr && isNil(b):
+		return eq(a.Base, "0")
+	case b.K == KHeapPtr && isNil(a):
+		return eq(b.Base, "0")
 	case (a.K == KStruct || a.K == KSlice || a.K == KTuple) && a.K == b.K && len(a.Fs) == len(b.Fs):
 		var cs []string
 		for i := range a.Fs {
@@ -946,6 +964,14 @@ func (ex *Exec) evalCall(st *State, n *node, e *env) Val {
 		return term("(- "+sel(st.region("G!sentlen", arr("Int", "Int")), arg(0).T)+" "+sel(st.region("G!recvlen", arr("Int", "Int")), arg(0).T)+")", tInt)
 	case "tickperiod":
 		return term(sel(st.region("G!tickperiod", arr("Int", "Int")), arg(0).T), tInt)
+	case "pushmsg":
+		return Val{K: KTerm, T: sel(st.region("G!push!msg", arr("Int", "Int")), arg(0).T)}
+	case "pushsrc":
+		return term(sel(st.region("G!push!src", arr("Int", "Int")), arg(0).T), tInt)
+	case "pushedfor":
+		return term(sel(st.region("G!pushedat", arr("Int", "Int")), arg(0).T), tInt)
+	case "msgline":
+		return term(sel(st.region("G!msgline", arr("Int", "String")), arg(0).T), tString)
 	case "rdrec":
 		return term(sel(st.region("G!rdrec", arr("Int", "Int")), arg(0).T), tInt)
 	case "rdstream":
